@@ -18,9 +18,9 @@ CLAIMED = {
    note="MakeMove is verified under the local precondition `movable` + `lightPos`; lemma movableFromPseudo shows every pseudo-legal move of a valid position satisfies it. Not covered: uci.applyMoves/parseUCIMove (string handling) are not under contract, so the `position ... moves` path relies on C05's gate only; chains of moves follow by induction over the single-step contract (validity preservation lemma not mechanised in this revision).",
    ref="DESIGN.md section 5 C02"),
  "C03": dict(
-   text="Null move: MakeNullMove followed by UndoNullMove restores every field and the whole hash history (scenario executed symbolically on both real bodies; quick tier). Real move: the scenario MakeMove;UndoMove on a symbolic board and any movable move (superset of pseudo-legal, incl. moves that leave the king in check) restores placement, side, e.p. target, rights, both counters and the hash history; it runs in the thorough tier only (both bodies inlined, heavy).",
-   note="Nesting to arbitrary depth follows from the single-step round trip by induction (not mechanised). The Reverse token is whatever MakeMove produced (no separate token contract).",
-   ref="DESIGN.md section 5 C03"),
+   text="Null move: MakeNullMove followed by UndoNullMove restores every field and the whole hash history (scenario executed symbolically on both real bodies). Real move: the scenario MakeMove;UndoMove on a symbolic board and any movable move (superset of pseudo-legal, incl. moves that leave the king in check, castling, promotions, en passant) restores placement (six piece sets, two colour sets, the per-square piece map), side, e.p. target, rights, both counters and the hash history entry by entry; both real bodies are executed in sequence with add/removePiece inlined, split into 42 cases by moving and captured piece, each discharged in about 2 s (quick tier). The undo token's pack/unpack round trip is a separate scenario.",
+   note="In the make/undo scenario CanEnPassant and Hash are used through frame-only views (their values are immaterial for the round trip; frames proved in their main contracts). Nesting to arbitrary depth follows from the single-step round trip by induction (not mechanised). The Reverse token is whatever MakeMove produced (no separate token contract). The scenario's end-reachability probe needs about 140 s and is decided in the thorough tier only.",
+   ref="DESIGN.md section 5 C03 and section 11"),
  "C04": dict(
    text="Proof: addPiece/removePiece preserve the representation invariant (piece map == piece sets == colour sets) and change the placement fold by exactly the returned key (1792 split cases over square x colour x piece); calculateHash equals the specification hash zhash (loop invariant over the bit loop + fold lemmas), ResetHash installs it; MakeNullMove keeps hash == zhash; MakeMove keeps hash == zhash and the representation invariant (thorough tier: about 130 s; quick tier checks all its call preconditions and the cheaper clauses). zhash is a function of placement, side, rights and e.p. file only, which gives the transposition clause.",
    note="The Zobrist tables are arbitrary (uninterpreted) so the proof holds for any table contents. UndoMove's hash pop is covered by C03's scenario. The fold over 64 squares is kept opaque in callers (memoised through control-flow merges).",
